@@ -285,7 +285,7 @@ def chunk_model_check(fm, data, leaves, rgs, fn=None):
     return out
 
 
-def check_dataset(path, df, spec, o, fm):
+def check_dataset(path, df, spec, o, fm, allow_orphans=False):
     """-> dict(problems=[(stage, text)], files, lenient, pages...) for a written dataset at `path`"""
     from harness import fmtlib, rt
     res = {"problems": [], "files": 0, "lenient": 0, "verdicts": {}}
@@ -302,6 +302,19 @@ def check_dataset(path, df, spec, o, fm):
             res["problems"].append(("layout", "unexpected files in the dataset: %r" % [os.path.relpath(x, path) for x in other][:4]))
         if "_metadata" not in [os.path.basename(m) for m in metas]:
             res["problems"].append(("layout", "no _metadata file in a hive/drill dataset"))
+        elif allow_orphans:
+            # after an operation that FAILED part files it had already written may be left behind; the dataset is what _metadata names
+            try:
+                mdata = open([m for m in metas if os.path.basename(m) == "_metadata"][0], "rb").read()
+                named = set()
+                for rg in (_fld(_footer_tv(fm, mdata), 4) or [0, 0, []])[2]:
+                    for c in _fld(rg, 1)[2]:
+                        if _fld(c, 1):
+                            named.add(bytes(_fld(c, 1)[1]).decode())
+                res["orphans"] = len([f for f in parts if os.path.relpath(f, path) not in named])
+                parts = [f for f in parts if os.path.relpath(f, path) in named]
+            except Exception as e:     # noqa
+                res["problems"].append(("metadata", "_metadata unreadable: %s" % e))
     leaves, cols = None, {}
     part_rgs = []
     part_rows = []
@@ -572,7 +585,7 @@ def _hist_job(h):
                     any_failed = True
                     out["failed_steps"] += 1
                 out["steps_done"] = si
-            res = check_dataset(path, expected, spec, dict(o, write_index=False), _fmt())
+            res = check_dataset(path, expected, spec, dict(o, write_index=False), _fmt(), allow_orphans=any_failed)
             out["files"] += res["files"]
             out["lenient"] += res["lenient"]
             if res["problems"]:
@@ -655,6 +668,13 @@ def gen_multi_histories(ctx):
             nparts = rng.choice([1, 1, 2])
             steps.append({"via": via, "frames": [2 * nparts], "seeds": [rng.randrange(1 << 30)], "offsets": 2 if nparts > 1 else None,
                           "fail": None})
+        if i % 2 == 1:
+            # class "failed operation, then continued use of the same handle": the producer of the frames raises after k part files of this
+            # append were written; the step must leave the dataset as it was (part files left behind are not part of it), and the NEXT
+            # append through the same handle must not publish anything of the failed one
+            steps.insert(len(steps) - 1, {"via": "handle", "frames": [2, 2, 2], "seeds": [rng.randrange(1 << 30) for _ in range(3)],
+                                          "offsets": None, "fail": {"kind": "iter", "at": rng.randrange(3)}})
+            steps[-1]["via"] = "handle"
         hs.append({"spec": spec, "opts": o, "steps": steps, "multi": True})
     return hs
 
